@@ -233,6 +233,24 @@ func (s *Spec) PlantAll(r *rand.Rand) []Planted {
 			out = append(out, Planted{Spec: cl, Kind: "dup-field", Names: [][]string{cl.TypeNames(t)}, Note: "field of type " + cl.Expr(t, "") + " conflicts with its provider"})
 		}
 	}
+	// (1b) a second provider for a type that an ALIAS-declared field of an
+	// expanded struct supplies (the same type under another spelling); chosen
+	// deterministically: the smallest such type id
+	for _, t := range supplied {
+		sp := base.Suppliers[t]
+		if sp.Field < 0 {
+			continue
+		}
+		sb := s.structBase(sp.Via)
+		if sb < 0 || sp.Field >= len(s.Types[sb].Fields) || s.Types[sb].Fields[sp.Field].Alias == "" {
+			continue
+		}
+		cl := s.Clone()
+		pid := cl.addP(&Prov{Kind: PFunc, Fn: fmt.Sprintf("DupAliasP%d", len(cl.Provs)), Results: []int{t}})
+		cl.Injectors[0].Items = append(cl.Injectors[0].Items, Item{Prov: pid})
+		out = append(out, Planted{Spec: cl, Kind: "dup-alias-field", Names: [][]string{cl.TypeNames(t)}, Note: "second provider of " + cl.Expr(t, "") + ", which a field declared through an alias supplies"})
+		break
+	}
 	// (2) provider vs Bind: a second implementation bound to an interface that is already supplied
 	for _, t := range supplied {
 		if s.Types[t].Kind == KIface && s.Types[t].Pkg == "" {
